@@ -6,9 +6,11 @@
    fixes/C09-*.diff applied, [none_fixed] the code before.  The specification
    (Model/SnippetSpec.v) is "tokenise, then substitute": [Tokens s ts] says that the token list
    [ts] is the reading of the text [s] (four clauses, no loop), [subst] replaces every hole by the
-   complete rendering of its argument.  [sc_view] is what text/scanner makes of a format
-   (one leading U+FEFF dropped, ill-formed bytes replaced); it is the identity on the property's
-   domain (well-formed UTF-8) except for the leading U+FEFF (known finding leading_bom). *)
+   complete rendering of its argument.  [sc_view] is what the repaired code gets out of
+   text/scanner for a format (ill-formed bytes replaced; the one leading U+FEFF the scanner drops
+   is the one the code puts in front, fixes/C09-5-leading-bom.diff); it is the identity on the
+   property's domain (well-formed UTF-8).  [sc_raw] is text/scanner on the format alone, which
+   the code before that repair used ([sc_in fx]). *)
 Require Import Gengo.Base.Bytes Gengo.Model.Snippet Gengo.Model.SnippetSpec Gengo.Proofs.Snippet.
 
 (* ---- the template language: every text has exactly one reading, and [tokenize] computes it ---- *)
@@ -44,11 +46,11 @@ Theorem C09_template :
 Proof. exact template_tokens. Qed.
 Print Assumptions C09_template.
 
-(* On the property's domain — the format is well-formed UTF-8 (Unicode table 3-7) and does not
-   start, after its leading newlines, with U+FEFF — text/scanner is transparent. *)
+(* On the property's domain — the format is well-formed UTF-8 (Unicode table 3-7) — text/scanner,
+   used this way, is transparent: a leading U+FEFF is a character like any other. *)
 Theorem C09_template_faithful :
   forall args f ts,
-    utf8 (trim_nl f) -> has_bom (trim_nl f) = false ->
+    utf8 (trim_nl f) ->
     Tokens (trim_nl f) ts ->
     tpl_impl all_fixed args f = subst args ts.
 Proof. exact template_faithful. Qed.
@@ -122,14 +124,15 @@ Proof. exact render_spec. Qed.
 Print Assumptions C09_render_model.
 
 (* the property, on its domain: every format in the term is well-formed UTF-8 ([fmts_utf8], what the
-   correspondence check tests before it evaluates the predicate), and the term is in neither of the
-   two recorded classes: no format starts with U+FEFF, every plain %v argument has a value literal.
+   correspondence check tests before it evaluates the predicate) and every plain %v argument has a
+   value literal (what Value(x) renders to is data here; it has none only if the dumper panics — C10).
+   No guard about U+FEFF: a format may start with it (after fixes/C09-5-leading-bom.diff).
    [spec_render same OutOfFuel] is the predicate the correspondence check evaluates on the
    implementation's output. *)
 Theorem C09_render :
-  forall s, fmts_utf8 s = true -> cls_bom s = false -> cls_nolit s = false ->
+  forall s, fmts_utf8 s = true -> cls_nolit s = false ->
             render all_fixed s = spec_render same OutOfFuel s.
-Proof. exact render_dom_classes. Qed.
+Proof. exact render_dom. Qed.
 Print Assumptions C09_render.
 
 (* the model has no fuel: it always answers Ok or Panic *)
@@ -137,9 +140,9 @@ Theorem C09_render_defined : forall s, render all_fixed s <> OutOfFuel.
 Proof. exact render_defined. Qed.
 Print Assumptions C09_render_defined.
 
-(* text/scanner is the identity on well-formed UTF-8 without a leading U+FEFF *)
+(* text/scanner with a byte order mark of the code's own in front is the identity on well-formed UTF-8 *)
 Theorem C09_scanner_transparent :
-  forall f, utf8 f -> has_bom f = false -> sc_view f = f.
+  forall f, utf8 f -> sc_view f = f.
 Proof. exact scanner_transparent. Qed.
 Print Assumptions C09_scanner_transparent.
 
@@ -184,17 +187,22 @@ Theorem C09_bare_at_refuted_before_fix :
 Proof. exact bare_at_old. Qed.
 Print Assumptions C09_bare_at_refuted_before_fix.
 
-(* ---- recorded findings (known_findings.d/C09.json): the guards of C09_render cannot be dropped ---- *)
-
-Theorem C09_template_refuted_bom :
+(* [before_bom_fix] = every repair but fixes/C09-5-leading-bom.diff: a well-formed format that starts with U+FEFF
+   (for T also after a leading newline) lost that character, in T and in Sprintf; the repaired code keeps it *)
+Theorem C09_template_refuted_before_fix :
   exists f, utf8b f = true /\
-    tpl_impl all_fixed [] f <> subst [] (tokenize (trim_nl f)) /\
-    sp_impl all_fixed f [] <> ssubst (stokenize f) [].
-Proof. exact bom_refuted. Qed.
-Print Assumptions C09_template_refuted_bom.
+    tpl_impl before_bom_fix [] f <> subst [] (tokenize (trim_nl f)) /\
+    sp_impl before_bom_fix f [] <> ssubst (stokenize f) [] /\
+    tpl_impl before_bom_fix [] (c_nl :: f) <> subst [] (tokenize (trim_nl (c_nl :: f))) /\
+    tpl_impl all_fixed [] f = subst [] (tokenize (trim_nl f)) /\
+    sp_impl all_fixed f [] = ssubst (stokenize f) [].
+Proof. exact bom_old. Qed.
+Print Assumptions C09_template_refuted_before_fix.
+
+(* ---- recorded finding (known_findings.d/C09.json): the remaining guard of C09_render cannot be dropped ---- *)
 
 Theorem C09_sprintf_refuted_nil_value :
-  exists s, fmts_ok s = true /\ render all_fixed s = Panic /\ spec_render same OutOfFuel s = OutOfFuel.
+  exists s, fmts_utf8 s = true /\ render all_fixed s = Panic /\ spec_render same OutOfFuel s = OutOfFuel.
 Proof. exact nolit_refuted. Qed.
 Print Assumptions C09_sprintf_refuted_nil_value.
 
@@ -216,9 +224,18 @@ a@x'b @y@z'.")
 Proof. vm_compute. reflexivity. Qed.
 
 Example C09_example_domain :
-  fmts_ok (ST (bs "a@x") [(bs "x", SSprintf (bs "%v%%") [SVal (Some (bs "1")) None])]) = true /\
+  fmts_utf8 (ST (bs "a@x") [(bs "x", SSprintf (bs "%v%%") [SVal (Some (bs "1")) None])]) = true /\
   cls_nolit (ST (bs "a@x") [(bs "x", SSprintf (bs "%v%%") [SVal (Some (bs "1")) None])]) = false /\
   render all_fixed (ST (bs "a@x") [(bs "x", SSprintf (bs "%v%%") [SVal (Some (bs "1")) None])]) = Ok (bs "a1%").
+Proof. repeat split; vm_compute; reflexivity. Qed.
+
+(* formats that start with U+FEFF are inside C09_render's domain: after leading newlines, twice, in Sprintf *)
+Example C09_example_bom :
+  let t := ST (c_nl :: c_nl :: bom ++ bom ++ bs "a@x" ++ bom)
+              [(bs "x", SSprintf (bom ++ bs "%v") [SVal (Some (bs "1")) None])] in
+  fmts_utf8 t = true /\ cls_bom t = true /\ cls_nolit t = false /\
+  render all_fixed t = Ok (bom ++ bom ++ bs "a" ++ bom ++ bs "1" ++ bom) /\
+  render before_bom_fix t = Ok (bom ++ bs "a" ++ bs "1" ++ bom).
 Proof. repeat split; vm_compute; reflexivity. Qed.
 
 Example C09_example_utf8 : utf8 (bs "é@x") .
@@ -267,7 +284,7 @@ Theorem C09_composed_render :
 Proof. exact @crender_erase. Qed.
 Print Assumptions C09_composed_render.
 
-(* ... and on the property's domain (formats well-formed UTF-8, the two recorded classes excluded) that is the
+(* ... and on the property's domain (formats well-formed UTF-8, every plain %v argument has a literal) that is the
    specification of this file *)
 Theorem C09_composed_spec :
   forall (F : Type) (fzero : F -> bool) (ffmt gfmt : VL.fkind -> F -> bytes) (fbig : F -> bool)
@@ -275,7 +292,7 @@ Theorem C09_composed_spec :
          (self : bytes) (fx6 : bool) (s : @csnip F) (e : TL.renv) (out : bytes) (e' : TL.renv),
     crender fzero ffmt gfmt fbig quote cbq (pick_c03 pre std) self fx6 s e = Ok (out, e') ->
     let t := cerase fzero ffmt gfmt fbig quote cbq (pick_c03 pre std) self fx6 e' s in
-    fmts_utf8 t = true -> cls_bom t = false -> cls_nolit t = false ->
+    fmts_utf8 t = true -> cls_nolit t = false ->
     spec_render same OutOfFuel t = Ok out.
 Proof. exact @crender_spec. Qed.
 Print Assumptions C09_composed_spec.
